@@ -1,6 +1,7 @@
 From Coq Require Import NArith List Bool.
 Import ListNotations.
-From SK Require Import model.C14_Model proof.C14_Proof proof.C14_Batch proof.C14_Cluster model.C14_CrnModel proof.C14_Crn.
+From SK Require Import model.C14_Model proof.C14_Proof proof.C14_Batch proof.C14_Cluster model.C14_CrnModel proof.C14_Crn
+  model.C14_WorkersModel proof.C14_Workers.
 Local Open Scope N_scope.
 
 (** Pinned key discipline (the repaired code): for EVERY allocator and collector behaviour (every legal
@@ -146,3 +147,58 @@ Theorem C14_balance_workers :
   balance_split n_jobs check rows = (filter check rows, filter (fun r => negb (check r)) rows).
 Proof. exact main_balance_workers. Qed.
 Print Assumptions C14_balance_workers.
+
+(** Worker processes (round 5; model coq/model/C14_WorkersModel.v).  A task sent to a joblib worker is pickled: the applier arrives
+    as a COPY — its cache keys are the parent's addresses, meaningless in the worker, its pinned objects are copies with new
+    identities and addresses ([ship]; sharing inside one pickle preserved).  For every parent history before the fit (any legal
+    trace [tr0] from the empty state — e.g. serial work that filled the cache), every set of shipped root objects, every address
+    assignment of the copies and every legal worker trace (any worker-side allocator / collector, so also one that hands a new
+    substrate the address of a stale key), every application in the worker returns execute(contents of its two objects). *)
+Theorem C14_worker_transparent :
+  forall (execute : N -> N -> bool -> list N) (cache_on : bool) (cmax : nat)
+         (tr0 : list event) (outs0 : list (bool * list N)) (sp : state (list N)) (roots addrs : list N)
+         (tr : list event) (outs : list (bool * list N)) (fin : state (list N)),
+    run (list N) execute true cache_on cmax (init _) tr0 = (true, outs0, sp) ->
+    run (list N) execute true cache_on cmax (ship (contents_of tr0) sp roots addrs) tr = (true, outs, fin) ->
+    map snd outs = spec execute (ship_contents (contents_of tr0) (ship_ids (cache sp) roots)) tr.
+Proof. exact worker_transparent. Qed.
+Print Assumptions C14_worker_transparent.
+
+(** BatchReactor.fit with entry-level workers = map single: for EVERY order-preserving cut of the entry list into batches of tasks
+    ([wchunks c], any c), every parent history, every address assignment per batch ([addrs_of k]) and every legal worker trace per
+    batch whose client part is the closure [worker] applied to the entries of that batch, the concatenated per-entry outputs are
+    the rules applied to each entry alone (contents of the rule objects as allocated in the parent) — whatever the shipped cache
+    contains, cache on or off, every cache size. *)
+Theorem C14_fit_workers :
+  forall (execute : N -> N -> bool -> list N) (cache_on : bool) (cmax : nat) (dd : bool)
+         (tr0 : list event) (outs0 : list (bool * list N)) (sp : state (list N)) (rules : list N) (inv : bool)
+         (subs : list N) (c : nat) (addrs_of : nat -> list N) (traces : list (list event)),
+  run (list N) execute true cache_on cmax (init _) tr0 = (true, outs0, sp) ->
+  let cs := contents_of tr0 in
+  let ids := ship_ids (cache sp) rules in
+  Forall2 (fun chunk ktr =>
+             fst (fst (run (list N) execute true cache_on cmax (ship cs sp rules (addrs_of (fst ktr))) (snd ktr))) = true /\
+             client_view (snd ktr) = worker_prog (length ids) (map (fun r => index_of r ids) rules) inv chunk)
+          (wchunks c subs) (combine (seq 0 (length traces)) traces) ->
+  concat (map (fun x : list N * (nat * list event) =>
+                 snd (worker_outputs execute cache_on cmax dd (ship cs sp rules (addrs_of (fst (snd x))))
+                                     (length rules) (fst x) (snd (snd x))))
+              (combine (wchunks c subs) (combine (seq 0 (length traces)) traces))) =
+  map (single execute dd (map (fun r => nth (N.to_nat r) cs 0) rules) inv) subs.
+Proof. exact fit_workers_is_map. Qed.
+Print Assumptions C14_fit_workers.
+
+(** Rule-level workers (parallel_rules, rule_n_jobs > 1): each application is a task of its own, shipped with the applier, the
+    substrate and the rule; its answer is execute(contents), for every parent history and every legal worker trace. *)
+Theorem C14_rule_task_workers :
+  forall (execute : N -> N -> bool -> list N) (cache_on : bool) (cmax : nat)
+         (tr0 : list event) (outs0 : list (bool * list N)) (sp : state (list N)) (s r : N) (addrs : list N) (inv : bool)
+         (tr : list event) (outs : list (bool * list N)) (fin : state (list N)),
+    run (list N) execute true cache_on cmax (init _) tr0 = (true, outs0, sp) ->
+    let cs := contents_of tr0 in
+    let ids := ship_ids (cache sp) [s; r] in
+    run (list N) execute true cache_on cmax (ship cs sp [s; r] addrs) tr = (true, outs, fin) ->
+    client_view tr = rule_task_prog (index_of s ids) (index_of r ids) inv ->
+    map snd outs = [execute (nth (N.to_nat s) cs 0) (nth (N.to_nat r) cs 0) inv].
+Proof. exact rule_task_transparent. Qed.
+Print Assumptions C14_rule_task_workers.
